@@ -132,12 +132,41 @@ def parse_cbmc(text):
     done = ("VERIFICATION SUCCESSFUL" in text) or ("VERIFICATION FAILED" in text)
     return checks, stats, traces, done
 
-def run_cbmc(goto, unwind, timeout_s, mem_gb=24):
-    cmd = ["cbmc"] + CBMC_FLAGS + ["--unwind", str(unwind), goto]
+def loops_of(goto):
+    """[(loop id, file, function)] of a goto binary."""
+    rc, out, _ = sh(["cbmc", "--show-loops", goto], timeout=300)
+    r = []
+    cur = None
+    for line in out.splitlines():
+        m = re.match(r"^Loop (\S+):$", line)
+        if m:
+            cur = m.group(1)
+            continue
+        m = re.match(r"^\s+file (\S+) line \d+.* function (.*)$", line)
+        if m and cur:
+            r.append((cur, m.group(1), m.group(2).strip()))
+            cur = None
+    return r
+
+def run_cbmc(goto, unwind, timeout_s, mem_gb=24, unwindset=None):
+    """unwindset: {substring of the function's pretty name: bound} — per-loop bounds (all loops
+    of matching functions); every other loop uses the harness-wide bound.  Unwinding assertions
+    are on (CBMC 6 default), so a bound that is too small is reported, never silently truncating."""
+    cmd = ["cbmc"] + CBMC_FLAGS + ["--unwind", str(unwind)]
+    if unwindset:
+        sel = []
+        for (lid, _file, func) in loops_of(goto):
+            for sub, n in unwindset.items():
+                if sub in func:
+                    sel.append("%s:%d" % (lid, n))
+                    break
+        if sel:
+            cmd += ["--unwindset", ",".join(sel)]
+    cmd += [goto]
     rc, out, secs = sh(cmd, timeout=timeout_s, mem_gb=mem_gb)
     return rc, out, secs
 
-def run_kani(features, harnesses, timeout_s, jobs=None):
+def run_kani(features, harnesses, timeout_s, jobs=None, unwindsets=None):
     """Decide each harness with CBMC.  Returns (dict harness -> result dict, raw text)."""
     from concurrent.futures import ThreadPoolExecutor
     harnesses = list(harnesses)
@@ -153,7 +182,7 @@ def run_kani(features, harnesses, timeout_s, jobs=None):
     tmo = timeout_s if isinstance(timeout_s, dict) else {h: timeout_s for h in harnesses}
     def one(h):
         goto, unwind = gotos[h]
-        rc, out, secs = run_cbmc(goto, unwind, tmo[h])
+        rc, out, secs = run_cbmc(goto, unwind, tmo[h], unwindset=(unwindsets or {}).get(h))
         return h, rc, out, secs
     raw = []
     with ThreadPoolExecutor(max_workers=jobs) as ex:
